@@ -101,20 +101,27 @@ Definition inner_ok (inner : str) : bool :=
   nonempty inner && forallb (fun c => negb (N.eqb c c_lb) && negb (N.eqb c c_rb) && negb (N.eqb c c_colon)) inner.
 Definition digits_ok (ds : str) : bool := nonempty ds && forallb is_digit ds.
 
-(** token strings *)
-Inductive dtok := TA (inner ds : str) | TC (c : N).
-Definition render_tok (t : dtok) : str := match t with TA inner ds => c_lb :: inner ++ c_rb :: ds | TC c => [c] end.
+(** token strings: a bracket atom with its map number, the WILDCARD atom with its map number ("[]3" in DFS style, "[*:3]" in
+    SMILES), any other character *)
+Inductive dtok := TA (inner ds : str) | TW (ds : str) | TC (c : N).
+Definition render_tok (t : dtok) : str :=
+  match t with TA inner ds => c_lb :: inner ++ c_rb :: ds | TW ds => c_lb :: c_rb :: ds | TC c => [c] end.
 Fixpoint render_toks (l : list dtok) : str := match l with [] => [] | t :: r => render_tok t ++ render_toks r end.
-Definition render_tok_mapped (t : dtok) : str := match t with TA inner ds => c_lb :: inner ++ [c_colon] ++ ds ++ [c_rb] | TC c => [c] end.
+Definition render_tok_mapped (t : dtok) : str :=
+  match t with
+  | TA inner ds => c_lb :: inner ++ [c_colon] ++ ds ++ [c_rb]
+  | TW ds => c_lb :: [c_ast] ++ [c_colon] ++ ds ++ [c_rb]
+  | TC c => [c]
+  end.
 Fixpoint render_mapped (l : list dtok) : str := match l with [] => [] | t :: r => render_tok_mapped t ++ render_mapped r end.
 (** an atom is well formed, is not the wildcard, and is not followed by a digit; other characters are not opening brackets *)
 Fixpoint toks_ok (l : list dtok) : bool :=
   match l with
   | [] => true
   | TA inner ds :: r => inner_ok inner && digits_ok ds && negb (str_eqb inner [c_ast]) && stops is_digit (render_toks r) && toks_ok r
+  | TW ds :: r => digits_ok ds && stops is_digit (render_toks r) && toks_ok r
   | TC c :: r => negb (N.eqb c c_lb) && toks_ok r
   end.
-
 
 (** one string through every function, and the DFS -> SMILES -> DFS round trip *)
 Definition run_dfs (l : list str) : tok :=
